@@ -223,6 +223,13 @@ def prelude_items():
                 break
             items.append(make_item(E.lit(v, n), None, ['lit:' + n]))
             items.append(make_item(['bin', '+', E.lit(v, n), num(1)], None, ['lit:' + n]))
+    # leading zeros in every notation (a decimal literal with a leading zero is still decimal)
+    for v, texts in ((10, ['010', '0010', '$0a', '$000A', '0x0a', '0x00A', '0aH', '000AH', '%01010', '%0001010', 'b01010', 'b0001010']),
+                     (7, ['07', '007', '$07', '0x007', '07H', '%0111', 'b00111']), (99, ['099', '0099', '$063', '0x0063', '063H']),
+                     (0, ['00', '000', '$00', '0x00', '00H', '%00', 'b00']), (16, ['016', '0016']), (8, ['08', '008']), (9, ['09'])):
+        for t in texts:
+            items.append(make_item(['num', v, t], None, ['lit:leading-zeros']))
+            items.append(make_item(['bin', '+', ['num', v, t], num(1)], None, ['lit:leading-zeros']))
     items.append(make_item(['num', 0xBEEF, '0BEEFH'], None, ['lit:H']))
     items.append(make_item(['num', 0xAB, 'abH'], None, ['lit:H']))
     items.append(make_item(['num', 0xAB, 'ABH'], None, ['lit:H']))
@@ -321,7 +328,7 @@ class C07(core.Check):
     required_buckets = {b: 3 for b in [
         'pair:cross-level', 'pair:same-level', 'neg:leading-then-binop', 'neg:after-operator-then-binop',
         'neg:before-parenthesis', 'neg:doubled', 'lit:dec', 'lit:dollar', 'lit:0x', 'lit:H', 'lit:pct', 'lit:b',
-        'lit:char', 'byte:negative', 'byte:beyond-length', 'trunc:positive', 'trunc:negative', 'real-quotient',
+        'lit:char', 'lit:leading-zeros', 'byte:negative', 'byte:beyond-length', 'trunc:positive', 'trunc:negative', 'real-quotient',
         'malformed:drop-operand', 'malformed:double-operator', 'malformed:unbalance', 'malformed:juxtapose',
         'malformed:trailing-operator', 'malformed:unclosed-func', 'malformed:foreign-char', 'channel:cli',
         'channel:cli-malformed', 'channel:direct', 'channel:cli-operand']}
